@@ -392,19 +392,36 @@ Proof. vm_compute. reflexivity. Qed.
 (* ====================================================================== *)
 From MafVerif Require Import model.LineReader proofs.HeaderLineReader proofs.HeaderDerive.
 
-(* from_line_reader lr = from_lines of the maximal prefix of lines starting
-   with '#' that the reader still holds; afterwards the reader has counted
+(* from_line_reader lr = from_lines (numbered from the reader's position + 1)
+   of the maximal prefix of lines starting with '#' that the reader still holds; afterwards the reader has counted
    exactly those lines and shows the line right behind them (lines beyond the
    end of the input read as "") *)
 Theorem C13_from_line_reader_is_from_lines :
   forall (C : Type) (registry : list (scheme C)) (lr : linereader) m lg,
     let pre := take_while is_header_line (lr_view lr) in
     let out := header_from_line_reader registry lr m lg in
-    fst out = header_from_lines registry pre m lg /\
+    fst out = header_from_lines_at registry (lr_no lr + 1) pre m lg /\
     lr_no (snd out) = lr_no lr + Z.of_nat (length pre) /\
     (forall i, nth i (lr_view (snd out)) [] = nth (length pre + i) (lr_view lr) []).
 Proof. intros C registry lr m lg. exact (from_line_reader_spec registry lr m lg). Qed.
 Print Assumptions C13_from_line_reader_is_from_lines.
+
+(* ... where from_lines with first_line_number = first numbers its lines first,
+   first+1, ...: the default is 1, and the loop is the one C13_loop_is_spec
+   describes started at first-1, so a diagnostic for the k-th (0-based) of these
+   lines carries lr_no lr + k + 1, its number in the reader's input *)
+Theorem C13_from_lines_at :
+  forall (C : Type) (registry : list (scheme C)) lines m lg,
+    header_from_lines_at registry 1 lines m lg = header_from_lines registry lines m lg /\
+    forall first,
+      exists recs errs, parse_header_lines (first - 1) lines [] [] = (recs, errs) /\
+        fst (parse_header_lines 0 lines [] []) = recs /\
+        errs = map (shift_err (first - 1)) (snd (parse_header_lines 0 lines [] [])).
+Proof.
+  intros C registry lines m lg. split; [reflexivity|]. intros first.
+  exact (parse_header_lines_shift lines (first - 1)).
+Qed.
+Print Assumptions C13_from_lines_at.
 
 (* read_line steps over a non-empty line and counts it; on an empty line, as
    at the end of the input, it returns "" and does not move *)
